@@ -17,7 +17,7 @@ def main(run: Run):
     run.assumptions += BASE_ASSUMPTIONS_L2
     run.functions["amaranth_soc.wishbone.bus.Arbiter.elaborate"] = "per-configuration (bounded: N, features, granularities), all inputs/states/time"
     run.functions["amaranth_soc.wishbone.bus.Arbiter.add"] = "exercised (constructor refusals counted)"
-    run_configs(run, __name__, cfgs)
+    run_configs(run, __name__, cfgs, must_accept=True)
     from . import busadd_l1
     busadd_l1.add_to(run, ['arbiter_add'])
     from . import validation
